@@ -301,7 +301,7 @@ def f8(src, st):
 # ---------------------------------------------------------------- F11 decision budget
 BUDGET_OPS = [('if', r'\bif\b'), ('match', r'\bmatch\b'), ('while', r'\bwhile\b'), ('==', r'=='), ('!=', r'!='), ('<=', r'<='), ('>=', r'(?<![=])>='), ('&&', r'&&'), ('||', r'\|\|'),
               # owner's full budget only: other ways of testing a value (rustfmt spacing tells `a < b` from generics)
-              ('letelse', r'\blet\b[^;{}]*?\belse\s*\{'), ('conv:as', r'\bas\s+(?:i8|i16|i32|i64|i128|isize|u8|u16|u32|u64|u128|usize|f32|f64)\b'), ('lt', r' < '), ('gt', r' > '), ('matches!', r'\bmatches!\s*\('), ('rem', r' % '), ('xor', r' \^ '), ('and', r' & '), ('shl', r' << '), ('shr', r' >> ')] + \
+              ('letelse', r'\blet\b[^;{}]*?\belse\s*\{'), ('conv:as', r'\bas\s+(?:i8|i16|i32|i64|i128|isize|u8|u16|u32|u64|u128|usize|f32|f64)\b'), ('lt', r' < '), ('gt', r' > '), ('matches!', r'\bmatches!\s*\('), ('rem', r' % '), ('xor', r' \^ '), ('and', r' & '), ('shl', r' << '), ('shr', r' >> '), ('mul', r' \* '), ('div', r' / '), ('add', r' \+ (?![A-Z\'?]|crate::|core::|alloc::)'), ('sub', r' - ')] + \
              [('.' + m, r'\.\s*%s\s*\(' % m) for m in ('contains', 'starts_with', 'ends_with', 'eq', 'ne', 'cmp', 'strip_prefix', 'strip_suffix', 'find', 'position', 'any', 'all', 'filter',
                                                       'is_zero', 'checked_sub', 'checked_add', 'wrapping_sub', 'wrapping_add', 'count_ones', 'rem_euclid', 'abs', 'then', 'then_some', 'take_while', 'skip_while')]
 PLUMBING = {'map', 'collect', 'into_iter', 'iter', 'next', 'map_err', 'copied', 'cloned', 'transpose', 'then_with', 'try_from', 'try_into', 'map_or', 'map_or_else', 'and_then', 'ok', 'ok_or', 'ok_or_else',
